@@ -48,7 +48,9 @@ class RMBAPrimitive(UDSScanner):
                 sys.exit(1)
 
         try:
-            await self.ecu.check_and_set_session(self.config.session)
+            if not await self.ecu.check_and_set_session(self.config.session):
+                logger.critical(f"Could not change to session: {g_repr(self.config.session)}")
+                sys.exit(1)
         except Exception as e:
             logger.critical(f"Could not change to session: {g_repr(self.config.session)}: {e!r}")
             sys.exit(1)
